@@ -426,13 +426,13 @@ func c01Scenario(c c01cfg) *Scenario {
 func c01OverlappingCommands(first, second string) *Scenario {
 	sc := &Scenario{Name: fmt.Sprintf("C01 %s overlapping %s of the same service", first, second), Horizon: 120 * time.Second}
 	const host = "a.example.com"
-	sets := [][]string{{"g:80"}, {"ok2:80", "bad:80"}}
+	sets := [][]string{{"ga:80"}, {"ok2:80", "bad:80"}}
 	var cmds [2]*CmdObs
 	sc.Run = func(w *World) {
 		cmds = [2]*CmdObs{}
 		w.AddTarget("oa:80")
 		w.AddTarget("ra:80")
-		w.AddTarget("g:80", p500(), pOK())
+		w.AddTarget("ga:80", p500(), pOK())
 		w.AddTarget("ok2:80")
 		w.AddTarget("bad:80", p500())
 		w.Deploy(deployArgs("s1", []string{"oa:80"}, []string{host}, nil))
@@ -507,6 +507,9 @@ func c01OverlappingCommands(first, second string) *Scenario {
 					break
 				}
 			}
+		}
+		if !w.HadStall() && cmds[0].Err != nil && !errors.Is(cmds[0].Err, ErrorTargetFailedToBecomeHealthy) {
+			vs = append(vs, Violation{"C01", "setup", fmt.Sprintf("first command: %v", cmds[0].Err)})
 		}
 		if !w.HadStall() && cmds[1].Err == nil {
 			vs = append(vs, Violation{"C01", "no-failure-despite-unhealthy-target overlapping-commands", fmt.Sprintf("%s %v returned nil although bad:80 never answered a 2xx probe", cmds[1].Name, sets[1])})
